@@ -4,6 +4,7 @@
 //
 // usage: mono_harness <nfits> <cases.out> <impl.out> <stats.out> [<nfits of the small-magnitude family> [<nfits of the weight-scale family>]]
 //        mono_harness replay <problem-file> <cases.out> <impl.out>
+//        mono_harness knotscale <nproblems> <out> <stats.out>   |   mono_harness ksreplay <file> <out>     (c10_knotscale.h)
 //
 // cases.out                                   impl.out
 //   P <problem words>                           fit ok | fit threw <what>
@@ -46,7 +47,7 @@ static std::string problem_line(const Problem& p) {
   }
   o << " " << p.z.size();
   for (size_t r = 0; r < p.z.size(); r++) { for (int d = 0; d < p.ndim; d++) o << " " << p.idx[r][d]; o << " " << bits(p.z[r]) << " " << bits(p.w[r]); }
-  if (p.shape >= 12) o << " K " << p.wk << " " << p.wpat << " " << p.wm << " " << p.wgd << " " << p.wdir;
+  if (p.shape >= 12 && p.shape < 20) o << " K " << p.wk << " " << p.wpat << " " << p.wm << " " << p.wgd << " " << p.wdir;
   return o.str();
 }
 
@@ -320,6 +321,8 @@ static bool do_fit(const Problem& p, uint32_t monodim, Table& t, std::string& er
   return true;
 }
 
+#include "c10_knotscale.h"   // fourth stream (own sub-command): knot-scale equivariance
+
 static FILE *fc, *fi;
 
 static void emit_table(const Table& t) {
@@ -439,6 +442,8 @@ static void run_problem(const Problem& p, Rng& r, std::map<std::string, long>& s
 
 int main(int argc, char** argv) {
   std::map<std::string, long> stats;
+  if (argc >= 5 && std::string(argv[1]) == "knotscale") return ks_main(argc, argv);
+  if (argc >= 4 && std::string(argv[1]) == "ksreplay") return ks_main(argc, argv);
   if (argc >= 5 && std::string(argv[1]) == "replay") {
     std::ifstream in(argv[2]); std::string line; fc = fopen(argv[3], "w"); fi = fopen(argv[4], "w");
     Rng r(env_seed());
